@@ -1,21 +1,791 @@
 (* FifoLitFacts.v — C08 for fifo_cache: the literal machine (FifoLit.v) never reaches UB and
    computes exactly what the mid-level model (ListCache.v, fifo_policy) computes. *)
-Require Import Capp.Base Capp.Spec Capp.ListCache Capp.ListCacheFacts Capp.RrLit Capp.LruLit Capp.FifoLit.
+Require Import Capp.Base Capp.Spec Capp.Rr Capp.ListCache Capp.ListCacheFacts Capp.RrLit Capp.LruLit Capp.FifoLit.
 From Coq Require Import Strings.String.
 
 Section FifoLitFacts.
   Context {K V : Type} `{EqDec K}.
+  Local Open Scope list_scope.
+  Local Open Scope nat_scope.
+
+  (* ---------------- the std::list model: splice / prev / remove ---------------- *)
+  Lemma mem_nat_In : forall n l, mem_nat n l = true <-> In n l.
+  Proof.
+    intros n l. induction l as [|x r IH]; simpl.
+    - split; [discriminate|tauto].
+    - rewrite orb_true_iff, IH, Nat.eqb_eq. split; intros [E|I]; [left; congruence|right; exact I|left; congruence|right; exact I].
+  Qed.
+
+  Lemma insert_before_End : forall n l, insert_before End n l = l ++ [n].
+  Proof. intros n l. induction l as [|x r IH]; simpl; [reflexivity|]. rewrite IH. reflexivity. Qed.
+
+  Lemma before_End_cons : forall x y t, before End (x :: y :: t) = before End (y :: t).
+  Proof. reflexivity. Qed.
+
+  Lemma before_End_snoc : forall l n, before End (l ++ [n]) = Some n.
+  Proof.
+    induction l as [|x r IH]; intros n; [reflexivity|].
+    destruct r as [|y t]; [reflexivity|].
+    change (before End (x :: y :: (t ++ [n])) = Some n).
+    rewrite before_End_cons. exact (IH n).
+  Qed.
+
+  Lemma splice_begin_to_end : forall n r, l_splice (n :: r) End (l_begin (n :: r)) = Ok (r ++ [n]).
+  Proof.
+    intros n r. unfold l_splice, l_begin. simpl. rewrite Nat.eqb_refl. simpl.
+    rewrite insert_before_End. reflexivity.
+  Qed.
+
+  Lemma prev_end_snoc : forall r n, l_prev (r ++ [n]) End = Ok (It n).
+  Proof.
+    intros r n. unfold l_prev. simpl valid_it. cbv iota.
+    assert (E : iter_eqb End (l_begin (r ++ [n])) = false) by (destruct r; reflexivity).
+    rewrite E, before_End_snoc. reflexivity.
+  Qed.
+
+  (* the splice of do_erase: the node goes to the front *)
+  Lemma erase_splice_ok : forall l n, In n l ->
+    (if iter_eqb (It n) (l_begin l) then Ok l else l_splice l (l_begin l) (It n)) = Ok (n :: remove_nat n l).
+  Proof.
+    intros l n I. destruct l as [|h r]; [contradiction|].
+    simpl l_begin. simpl iter_eqb. destruct (Nat.eqb_spec n h) as [E|N].
+    - subst h. simpl. rewrite Nat.eqb_refl. reflexivity.
+    - unfold l_splice. rewrite (proj2 (mem_nat_In n (h :: r)) I).
+      simpl valid_it. rewrite Nat.eqb_refl. simpl orb. cbv iota.
+      assert (E1 : Nat.eqb h n = false) by (apply Nat.eqb_neq; congruence).
+      assert (E2 : Nat.eqb n h = false) by (apply Nat.eqb_neq; congruence).
+      simpl. rewrite E1, E2. simpl. rewrite Nat.eqb_refl. reflexivity.
+  Qed.
+
+  Lemma remove_nat_notin : forall n l, ~ In n l -> remove_nat n l = l.
+  Proof.
+    intros n l. induction l as [|x r IH]; simpl; intros NI; [reflexivity|].
+    destruct (Nat.eqb_spec n x) as [E|N]; [exfalso; apply NI; left; congruence|].
+    f_equal. apply IH. intros I. apply NI. right. exact I.
+  Qed.
+
+  Lemma remove_nat_app : forall n a b, ~ In n a -> remove_nat n (a ++ b) = a ++ remove_nat n b.
+  Proof.
+    intros n a b. induction a as [|x r IH]; simpl; intros NI; [reflexivity|].
+    destruct (Nat.eqb_spec n x) as [E|N]; [exfalso; apply NI; left; congruence|].
+    f_equal. apply IH. intros I. apply NI. right. exact I.
+  Qed.
+
+  Lemma in_remove_nat : forall n l m, NoDup l -> (In m (remove_nat n l) <-> In m l /\ m <> n).
+  Proof.
+    intros n l m. induction l as [|x r IH]; simpl; intros ND; [tauto|].
+    inversion ND as [|y t NI ND']; subst.
+    destruct (Nat.eqb_spec n x) as [E|N].
+    - subst x. split.
+      + intros I. split; [right; exact I|]. intros E. subst m. contradiction.
+      + intros [[E|I] Nm]; [congruence|exact I].
+    - simpl. rewrite (IH ND'). split.
+      + intros [E|[I Nm]]; [subst x; split; [left; reflexivity|congruence]|split; [right; exact I|exact Nm]].
+      + intros [[E|I] Nm]; [left; exact E|right; split; assumption].
+  Qed.
+
+  Lemma nodup_remove_nat : forall n l, NoDup l -> NoDup (remove_nat n l).
+  Proof.
+    intros n l. induction l as [|x r IH]; simpl; intros ND; [constructor|].
+    inversion ND as [|y t NI ND']; subst.
+    destruct (Nat.eqb_spec n x) as [E|N]; [exact ND'|].
+    constructor; [|apply IH; exact ND'].
+    intros I. apply (in_remove_nat n r x ND') in I. tauto.
+  Qed.
+
+  Lemma length_remove_nat : forall n l, In n l -> S (List.length (remove_nat n l)) = List.length l.
+  Proof.
+    intros n l. induction l as [|x r IH]; simpl; intros I; [contradiction|].
+    destruct (Nat.eqb_spec n x) as [E|N]; [reflexivity|].
+    simpl. f_equal. apply IH. destruct I as [E|I]; [congruence|exact I].
+  Qed.
+
+  Lemma nodup_app_disj : forall (a b : list nat) x, NoDup (a ++ b) -> In x a -> In x b -> False.
+  Proof.
+    induction a as [|y r IH]; simpl; intros b x ND Ia Ib; [contradiction|].
+    inversion ND as [|z l NI ND']; subst. destruct Ia as [E|Ia].
+    - subst. apply NI. apply in_or_app. right. exact Ib.
+    - eapply IH; eauto.
+  Qed.
+
+  Lemma nodup_app_right : forall (a b : list nat), NoDup (a ++ b) -> NoDup b.
+  Proof.
+    induction a as [|y r IH]; simpl; intros b ND; [exact ND|].
+    inversion ND; subst. apply IH. assumption.
+  Qed.
+
+  Lemma nodup_rotate : forall (x : nat) l, NoDup (x :: l) -> NoDup (l ++ [x]).
+  Proof.
+    intros x l ND. inversion ND as [|y t NI ND']; subst. clear ND.
+    induction l as [|z r IH]; simpl.
+    - constructor; [intros []|constructor].
+    - inversion ND' as [|y t NI' ND'']; subst. constructor.
+      + rewrite in_app_iff. simpl. intros [I|[E|[]]]; [contradiction|]. apply NI. left. symmetry. exact E.
+      + apply IH; [|exact ND'']. intros I. apply NI. right. exact I.
+  Qed.
+
+  (* ---------------- vectors ---------------- *)
+  Lemma upd_length : forall A (l : list A) i x, List.length (upd_nth i x l) = List.length l.
+  Proof. induction l as [|y r IH]; intros [|i] x; simpl; auto. Qed.
+
+  Lemma nth_error_upd_eq : forall A (l : list A) i x, i < List.length l -> nth_error (upd_nth i x l) i = Some x.
+  Proof. induction l as [|y r IH]; intros [|j] x Hi; simpl in *; try lia; auto. apply IH; lia. Qed.
+
+  Lemma nth_error_upd_neq : forall A (l : list A) i j x, j <> i -> nth_error (upd_nth i x l) j = nth_error l j.
+  Proof. induction l as [|y r IH]; intros [|i] [|j] x Hne; simpl; try congruence; auto. Qed.
+
+  Lemma vget_ok : forall A what (l : list A) i a, nth_error l i = Some a -> vget what l i = Ok a.
+  Proof. intros A what l i a E. unfold vget. rewrite E. reflexivity. Qed.
+
+  Lemma vset_ok : forall A what (l : list A) i a, i < List.length l -> vset what l i a = Ok (upd_nth i a l).
+  Proof.
+    intros A what l i a Hi. unfold vset.
+    destruct (Nat.ltb_spec i (List.length l)); [reflexivity|lia].
+  Qed.
+
+  (* ---------------- the index ---------------- *)
+  Lemma remk_notin_id : forall (ix : list (K * nat)) k, ~ In k (keys ix) -> remk k ix = ix.
+  Proof.
+    induction ix as [|[k0 j] r IH]; intros k NI; simpl in *; [reflexivity|].
+    destruct (Base.eqb_spec k k0) as [E|N]; [exfalso; apply NI; left; auto|].
+    f_equal. apply IH. intros I. apply NI. right. exact I.
+  Qed.
+
+  Lemma length_remk_nodup : forall (ix : list (K * nat)) k i, NoDup (keys ix) -> assoc k ix = Some i ->
+    S (List.length (remk k ix)) = List.length ix.
+  Proof.
+    induction ix as [|[k0 j] r IH]; intros k i ND A; simpl in *; [discriminate|].
+    inversion ND as [|x l NI ND']; subst.
+    destruct (Base.eqb_spec k k0) as [E|N].
+    - subst k0. rewrite remk_notin_id; auto.
+    - simpl. f_equal. eapply IH; eauto.
+  Qed.
+
+  (* ---------------- cells read as entries ---------------- *)
+  Definition centry (cs : list (fcell K V)) (n : nat) : option (K * V) :=
+    match nth_error cs n with
+    | Some {| fc_keyed := Some k; fc_val := Some v |} => Some (k, v)
+    | _ => None
+    end.
+
+  Lemma fl_entry_centry : forall (l : fifol K V) n, fl_entry l n = centry (fl_cells l) n.
+  Proof. reflexivity. Qed.
+
+  Lemma centry_some : forall cs n k v, centry cs n = Some (k, v) ->
+    nth_error cs n = Some {| fc_keyed := Some k; fc_val := Some v |}.
+  Proof.
+    intros cs n k v E. unfold centry in E.
+    destruct (nth_error cs n) as [[[k0|] [v0|]]|]; try discriminate.
+    inversion E; subst. reflexivity.
+  Qed.
+
+  Lemma centry_of_cell : forall cs n k v,
+    nth_error cs n = Some {| fc_keyed := Some k; fc_val := Some v |} -> centry cs n = Some (k, v).
+  Proof. intros cs n k v E. unfold centry. rewrite E. reflexivity. Qed.
+
+  Lemma centry_upd_eq : forall cs n k v, n < List.length cs ->
+    centry (upd_nth n {| fc_keyed := Some k; fc_val := Some v |} cs) n = Some (k, v).
+  Proof. intros. apply centry_of_cell. apply nth_error_upd_eq. assumption. Qed.
+
+  Lemma centry_upd_neq : forall cs n c m, m <> n -> centry (upd_nth n c cs) m = centry cs m.
+  Proof. intros. unfold centry. rewrite nth_error_upd_neq by assumption. reflexivity. Qed.
+
+  (* ---------------- used nodes read through f  vs  the mid-level list ---------------- *)
+  Lemma assoc_of_in : forall (items : list (K * V)) k v, NoDup (keys items) -> In (k, v) items ->
+    assoc k items = Some v.
+  Proof.
+    induction items as [|[k1 v1] r IH]; simpl; intros k v ND I; [contradiction|].
+    inversion ND as [|x l NI ND']; subst.
+    destruct I as [E|I].
+    - inversion E; subst. rewrite keqb_refl. reflexivity.
+    - destruct (Base.eqb_spec k k1) as [E|N].
+      + subst. exfalso. apply NI. change (In (fst (k1, v)) (map fst r)). apply in_map. exact I.
+      + apply IH; auto.
+  Qed.
+
+  Lemma assoc_some_in : forall (items : list (K * V)) k v, assoc k items = Some v -> In (k, v) items.
+  Proof.
+    induction items as [|[k1 v1] r IH]; simpl; intros k v E; [discriminate|].
+    destruct (Base.eqb_spec k k1) as [Ek|N].
+    - inversion E; subst. left. reflexivity.
+    - right. apply IH. exact E.
+  Qed.
+
+  Lemma map_some_in : forall (f : nat -> option (K * V)) used items n kv,
+    map f used = map (@Some (K * V)) items -> In n used -> f n = Some kv -> In kv items.
+  Proof.
+    intros f used items n kv M I E.
+    assert (J : In (Some kv) (map f used)) by (rewrite <- E; apply in_map; exact I).
+    rewrite M in J. apply in_map_iff in J. destruct J as (x & Ex & Ix). inversion Ex; subst. exact Ix.
+  Qed.
+
+  Lemma map_some_in_rev : forall (f : nat -> option (K * V)) used items kv,
+    map f used = map (@Some (K * V)) items -> In kv items -> exists n, In n used /\ f n = Some kv.
+  Proof.
+    intros f used items kv M I.
+    assert (J : In (Some kv) (map f used)) by (rewrite M; apply in_map; exact I).
+    apply in_map_iff in J. destruct J as (n & En & In_). exists n. auto.
+  Qed.
+
+  Lemma map_some_length : forall (f : nat -> option (K * V)) used items,
+    map f used = map (@Some (K * V)) items -> List.length used = List.length items.
+  Proof.
+    intros f used items M. rewrite <- (map_length f used), M, map_length. reflexivity.
+  Qed.
+
+  Lemma map_setk_gen : forall used items (f g : nat -> option (K * V)) n k v,
+    NoDup used -> map f used = map (@Some (K * V)) items ->
+    (forall m v', In m used -> f m = Some (k, v') -> m = n) ->
+    (exists v0, f n = Some (k, v0)) ->
+    g n = Some (k, v) -> (forall m, m <> n -> g m = f m) ->
+    map g used = map (@Some (K * V)) (setk k v items).
+  Proof.
+    induction used as [|m us IH]; intros items f g n k v ND M Inj (v0 & Fn) Gn Go.
+    - destruct items; [reflexivity|discriminate].
+    - destruct items as [|[k1 v1] its]; [discriminate|].
+      simpl in M. injection M as M1 M2.
+      inversion ND as [|y t NI ND']; subst.
+      destruct (Nat.eq_dec m n) as [E|N].
+      + subst m. rewrite Fn in M1. inversion M1; subst k1 v1.
+        simpl. rewrite keqb_refl. simpl. rewrite Gn. f_equal.
+        rewrite <- M2. apply map_ext_in. intros a Ia. apply Go. intros Ea. subst a. contradiction.
+      + assert (Nk : k <> k1).
+        { intros Ek. subst k1. apply N. apply (Inj m v1); [left; reflexivity|exact M1]. }
+        simpl. rewrite (keqb_neq _ _ Nk). simpl. rewrite (Go m N), M1. f_equal.
+        apply (IH its f g n k v); auto.
+        * intros a v' Ia Fa. apply (Inj a v'); [right; exact Ia|exact Fa].
+        * exists v0. exact Fn.
+  Qed.
+
+  Lemma map_remk_gen : forall used items (f : nat -> option (K * V)) n k,
+    NoDup used -> map f used = map (@Some (K * V)) items ->
+    (forall m v', In m used -> f m = Some (k, v') -> m = n) ->
+    (exists v0, f n = Some (k, v0)) ->
+    map f (remove_nat n used) = map (@Some (K * V)) (remk k items).
+  Proof.
+    induction used as [|m us IH]; intros items f n k ND M Inj (v0 & Fn).
+    - destruct items; [reflexivity|discriminate].
+    - destruct items as [|[k1 v1] its]; [discriminate|].
+      simpl in M. injection M as M1 M2.
+      inversion ND as [|y t NI ND']; subst.
+      assert (IHus : map f (remove_nat n us) = map (@Some (K * V)) (remk k its)).
+      { apply IH; auto.
+        - intros a v' Ia Fa. apply (Inj a v'); [right; exact Ia|exact Fa].
+        - exists v0. exact Fn. }
+      simpl. destruct (Nat.eqb_spec n m) as [E|N].
+      + subst m. rewrite Fn in M1. inversion M1; subst k1 v1.
+        rewrite keqb_refl. rewrite <- IHus. rewrite remove_nat_notin by exact NI. reflexivity.
+      + assert (Nk : k <> k1).
+        { intros Ek. subst k1. apply N. symmetry. apply (Inj m v1); [left; reflexivity|exact M1]. }
+        rewrite (keqb_neq _ _ Nk). simpl. rewrite M1, IHus. reflexivity.
+  Qed.
+
+  (* ---------------- the representation relation with its witnesses exposed ---------------- *)
+  Definition repw (l : fifol K V) (s : lc K V) (free used : list nat) : Prop :=
+      fl_list l = free ++ used /\
+      fl_cap l = lc_cap s /\ List.length (fl_cells l) = lc_cap s /\
+      NoDup (fl_list l) /\ List.length (fl_list l) = lc_cap s /\ (forall n, In n (fl_list l) -> n < lc_cap s) /\
+      fl_used l = List.length used /\ List.length (fl_index l) = List.length used /\ NoDup (keys (fl_index l)) /\
+      (forall n, In n free -> exists c, nth_error (fl_cells l) n = Some c /\ fc_keyed c = None) /\
+      map (fl_entry l) used = map (@Some (K * V)) (lc_items s) /\
+      (forall n k v, In n used -> fl_entry l n = Some (k, v) -> assoc k (fl_index l) = Some n) /\
+      (forall k n, assoc k (fl_index l) = Some n -> In n used /\ exists v, fl_entry l n = Some (k, v)).
+
+  Lemma fl_rep_repw : forall l s, fl_rep l s <-> exists free used, repw l s free used.
+  Proof. intros l s. unfold fl_rep, repw. tauto. Qed.
 
   Theorem fl_rep_init : forall cap, 1 <= cap -> fl_rep (K := K) (V := V) (fifol_init cap) (lc_init cap).
-  Admitted.
+  Proof.
+    intros cap Hc. exists (seq 0 cap), []. unfold fifol_init, lc_init; simpl.
+    rewrite app_nil_r, repeat_length, seq_length.
+    split; [reflexivity|]. split; [reflexivity|]. split; [reflexivity|].
+    split; [apply seq_NoDup|]. split; [reflexivity|].
+    split. { intros n I. apply in_seq in I. lia. }
+    split; [reflexivity|]. split; [reflexivity|]. split; [constructor|].
+    split.
+    { intros n I. apply in_seq in I. exists {| fc_keyed := None; fc_val := None |}. split; [|reflexivity].
+      apply nth_error_repeat. lia. }
+    split; [reflexivity|]. split; [intros n k v []|]. intros k n E. discriminate.
+  Qed.
 
+  Lemma cell_of_ok : forall (s : fifol K V) n c, In n (fl_list s) -> nth_error (fl_cells s) n = Some c ->
+    cell_of s (It n) = Ok (n, c).
+  Proof.
+    intros s n c I E. unfold cell_of, l_deref. rewrite (proj2 (mem_nat_In n _) I). cbn [bind].
+    rewrite (vget_ok _ _ _ _ _ E). reflexivity.
+  Qed.
+
+  Lemma cell_of_ok_rec : forall cap li (cs : list (fcell K V)) ix u n c, In n li -> nth_error cs n = Some c ->
+    cell_of {| fl_cap := cap; fl_list := li; fl_cells := cs; fl_index := ix; fl_used := u |} (It n) = Ok (n, c).
+  Proof. intros. apply cell_of_ok; assumption. Qed.
+
+  (* what the index says about the mid-level lookup *)
+  Lemma repw_some : forall t l s free used k n,
+    lc_inv t s -> repw l s free used -> assoc k (fl_index l) = Some n ->
+    In n used /\ exists v, nth_error (fl_cells l) n = Some {| fc_keyed := Some k; fc_val := Some v |} /\
+                           fl_entry l n = Some (k, v) /\ assoc k (lc_items s) = Some v.
+  Proof.
+    intros t l s free used k n I R A.
+    destruct R as (Rl & Rc & Rcl & Rnd & Rll & Rb & Ru & Ril & Rik & Rf & Rm & Rfw & Rbw).
+    destruct (Rbw k n A) as (Iu & v & E). split; [exact Iu|]. exists v.
+    split; [apply centry_some; exact E|]. split; [exact E|].
+    destruct I as (Ind & _). apply assoc_of_in; [exact Ind|].
+    eapply map_some_in; eauto.
+  Qed.
+
+  Lemma repw_none : forall l s free used k,
+    repw l s free used -> assoc k (fl_index l) = None -> assoc k (lc_items s) = None.
+  Proof.
+    intros l s free used k R A.
+    destruct R as (Rl & Rc & Rcl & Rnd & Rll & Rb & Ru & Ril & Rik & Rf & Rm & Rfw & Rbw).
+    destruct (assoc k (lc_items s)) as [v|] eqn:E; [|reflexivity]. exfalso.
+    apply assoc_some_in in E. destruct (map_some_in_rev _ _ _ _ Rm E) as (n & Iu & Fn).
+    rewrite (Rfw n k v Iu Fn) in A. discriminate.
+  Qed.
+
+  (* ---------------- do_find ---------------- *)
+  Lemma lc_find_fifo : forall (s : lc K V) k pk, lc_find fifo_policy s k pk = (s, assoc k (lc_items s)).
+  Proof. intros s k pk. unfold lc_find. destruct (assoc k (lc_items s)); reflexivity. Qed.
+
+  Lemma lc_find_range_fifo : forall ks (s : lc K V) pk,
+    lc_find_range fifo_policy s ks pk = (s, map (fun k => (k, assoc k (lc_items s))) ks).
+  Proof.
+    induction ks as [|k r IH]; intros s pk; simpl; [reflexivity|].
+    rewrite lc_find_fifo, IH. reflexivity.
+  Qed.
+
+  Lemma fl_find_refines : forall t (l : fifol K V) (s : lc K V) k,
+    lc_inv t s -> fl_rep l s -> fl_find l k = Ok (assoc k (lc_items s)).
+  Proof.
+    intros t l s k I (free & used & R). unfold fl_find.
+    destruct (assoc k (fl_index l)) as [n|] eqn:A.
+    - destruct (repw_some t l s free used k n I R A) as (Iu & v & Ec & _ & Ea).
+      destruct R as (Rl & _).
+      rewrite (cell_of_ok l n _) with (2 := Ec) by (rewrite Rl; apply in_or_app; right; exact Iu).
+      cbn [bind snd fc_val]. rewrite Ea. reflexivity.
+    - rewrite (repw_none l s free used k R A). reflexivity.
+  Qed.
+
+  Lemma fl_find_range_refines : forall t (l : fifol K V) (s : lc K V) ks,
+    lc_inv t s -> fl_rep l s ->
+    fl_find_range l ks = Ok (map (fun k => (k, assoc k (lc_items s))) ks).
+  Proof.
+    intros t l s ks I R. induction ks as [|k r IH]; simpl; [reflexivity|].
+    rewrite (fl_find_refines t l s k I R). cbn [bind]. rewrite IH. reflexivity.
+  Qed.
+
+  (* ---------------- do_update ---------------- *)
+  Lemma fl_update_refines : forall t (l : fifol K V) (s : lc K V) k n v,
+    lc_inv t s -> fl_rep l s -> assoc k (fl_index l) = Some n ->
+    exists l', fl_do_update l n v = Ok l' /\ fl_rep l' (lc_with s (setk k v (lc_items s))).
+  Proof.
+    intros t l s k n v I (free & used & R) A.
+    destruct (repw_some t l s free used k n I R A) as (Iu & v0 & Ec & Ee & Ea).
+    destruct R as (Rl & Rc & Rcl & Rnd & Rll & Rb & Ru & Ril & Rik & Rf & Rm & Rfw & Rbw).
+    assert (Il : In n (fl_list l)) by (rewrite Rl; apply in_or_app; right; exact Iu).
+    assert (Hn : n < List.length (fl_cells l)) by (rewrite Rcl; apply Rb; exact Il).
+    unfold fl_do_update. rewrite (cell_of_ok l n _ Il Ec). cbn [bind fc_keyed].
+    rewrite vset_ok by exact Hn. cbn [bind].
+    eexists. split; [reflexivity|]. exists free, used.
+    unfold repw. cbn [fl_list fl_cap fl_cells fl_index fl_used lc_with lc_cap lc_items].
+    rewrite upd_length.
+    split; [exact Rl|]. split; [exact Rc|]. split; [exact Rcl|]. split; [exact Rnd|].
+    split; [exact Rll|]. split; [exact Rb|]. split; [exact Ru|]. split; [exact Ril|]. split; [exact Rik|].
+    assert (Eo : forall m, m <> n ->
+              fl_entry {| fl_cap := fl_cap l; fl_list := fl_list l;
+                          fl_cells := upd_nth n {| fc_keyed := Some k; fc_val := Some v |} (fl_cells l);
+                          fl_index := fl_index l; fl_used := fl_used l |} m = fl_entry l m).
+    { intros m Nm. rewrite !fl_entry_centry. cbn [fl_cells]. apply centry_upd_neq. exact Nm. }
+    assert (En : fl_entry {| fl_cap := fl_cap l; fl_list := fl_list l;
+                          fl_cells := upd_nth n {| fc_keyed := Some k; fc_val := Some v |} (fl_cells l);
+                          fl_index := fl_index l; fl_used := fl_used l |} n = Some (k, v)).
+    { rewrite fl_entry_centry. cbn [fl_cells]. apply centry_upd_eq. exact Hn. }
+    split.
+    { intros m Im. destruct (Rf m Im) as (c & Em & Ek). exists c. split; [|exact Ek].
+      rewrite nth_error_upd_neq; [exact Em|]. intros E. subst m.
+      rewrite Rl in Rnd. exact (nodup_app_disj _ _ _ Rnd Im Iu). }
+    split.
+    { apply (map_setk_gen used (lc_items s) (fl_entry l) _ n k v); auto.
+      - rewrite Rl in Rnd. eapply nodup_app_right; eauto.
+      - intros m v' Im Fm. pose proof (Rfw m k v' Im Fm) as A'. congruence.
+      - exists v0. exact Ee. }
+    split.
+    - intros m k' v' Im Fm. destruct (Nat.eq_dec m n) as [E|N].
+      + subst m. rewrite En in Fm. inversion Fm; subst. exact A.
+      + rewrite (Eo m N) in Fm. eapply Rfw; eauto.
+    - intros k' m A'. destruct (Rbw k' m A') as (Im & v' & Fm). split; [exact Im|].
+      destruct (Nat.eq_dec m n) as [E|N].
+      + subst m. rewrite Ee in Fm. inversion Fm; subst. exists v. exact En.
+      + exists v'. rewrite (Eo m N). exact Fm.
+  Qed.
+
+  (* ---------------- do_erase ---------------- *)
+  Lemma fl_do_erase_refines : forall t (l : fifol K V) (s : lc K V) k n,
+    lc_inv t s -> fl_rep l s -> assoc k (fl_index l) = Some n ->
+    exists l', fl_do_erase l n = Ok l' /\ fl_rep l' (lc_with s (remk k (lc_items s))).
+  Proof.
+    intros t l s k n I (free & used & R) A.
+    destruct (repw_some t l s free used k n I R A) as (Iu & v0 & Ec & Ee & Ea).
+    destruct R as (Rl & Rc & Rcl & Rnd & Rll & Rb & Ru & Ril & Rik & Rf & Rm & Rfw & Rbw).
+    assert (Il : In n (fl_list l)) by (rewrite Rl; apply in_or_app; right; exact Iu).
+    assert (Hn : n < List.length (fl_cells l)) by (rewrite Rcl; apply Rb; exact Il).
+    assert (NDu : NoDup used) by (rewrite Rl in Rnd; eapply nodup_app_right; eauto).
+    assert (Nf : ~ In n free).
+    { intros If. rewrite Rl in Rnd. exact (nodup_app_disj _ _ _ Rnd If Iu). }
+    unfold fl_do_erase. rewrite (cell_of_ok l n _ Il Ec). cbn [bind fc_keyed fc_val].
+    rewrite (erase_splice_ok _ _ Il). cbn [bind].
+    unfold index_erase. rewrite A. cbn [bind].
+    rewrite vset_ok by exact Hn. cbn [bind].
+    destruct (Nat.eqb_spec (fl_used l) 0) as [Ez|Nz].
+    { exfalso. rewrite Ru in Ez. destruct used; [contradiction|discriminate]. }
+    eexists. split; [reflexivity|]. exists (n :: free), (remove_nat n used).
+    unfold repw. cbn [fl_list fl_cap fl_cells fl_index fl_used lc_with lc_cap lc_items].
+    rewrite upd_length.
+    pose proof (length_remove_nat n used Iu) as Lu.
+    pose proof (length_remove_nat n (fl_list l) Il) as Ll.
+    assert (Eo : forall m, m <> n ->
+              fl_entry {| fl_cap := fl_cap l; fl_list := n :: remove_nat n (fl_list l);
+                          fl_cells := upd_nth n {| fc_keyed := None; fc_val := Some v0 |} (fl_cells l);
+                          fl_index := remk k (fl_index l); fl_used := fl_used l - 1 |} m = fl_entry l m).
+    { intros m Nm. rewrite !fl_entry_centry. cbn [fl_cells]. apply centry_upd_neq. exact Nm. }
+    split. { rewrite Rl, remove_nat_app by exact Nf. reflexivity. }
+    split; [exact Rc|]. split; [exact Rcl|].
+    split.
+    { constructor; [|apply nodup_remove_nat; exact Rnd].
+      intros J. apply (in_remove_nat n _ n Rnd) in J. tauto. }
+    split. { simpl. lia. }
+    split.
+    { intros m [E|J]; [subst m; apply Rb; exact Il|].
+      apply (in_remove_nat n _ m Rnd) in J. apply Rb. tauto. }
+    split; [lia|].
+    split. { pose proof (length_remk_nodup _ _ _ Rik A). lia. }
+    split; [apply nodup_remk; exact Rik|].
+    split.
+    { intros m [E|Im].
+      - subst m. eexists. split; [apply nth_error_upd_eq; exact Hn|reflexivity].
+      - destruct (Rf m Im) as (c & Em & Ek). exists c. split; [|exact Ek].
+        rewrite nth_error_upd_neq; [exact Em|]. intros E. subst m. contradiction. }
+    split.
+    { rewrite <- (map_remk_gen used (lc_items s) (fl_entry l) n k NDu Rm).
+      - apply map_ext_in. intros m Im. apply Eo. apply (in_remove_nat n _ m NDu) in Im. tauto.
+      - intros m v' Im Fm. pose proof (Rfw m k v' Im Fm) as A'. congruence.
+      - exists v0. exact Ee. }
+    split.
+    - intros m k' v' Im Fm. apply (in_remove_nat n _ m NDu) in Im. destruct Im as [Im Nm].
+      rewrite (Eo m Nm) in Fm. pose proof (Rfw m k' v' Im Fm) as A'.
+      rewrite assoc_remk_other; [exact A'|]. intros Ek. subst k'. congruence.
+    - intros k' m A'.
+      assert (Nk : k' <> k).
+      { intros Ek. subst k'. rewrite assoc_remk_same in A'. discriminate. }
+      rewrite assoc_remk_other in A' by exact Nk.
+      destruct (Rbw k' m A') as (Im & v' & Fm).
+      assert (Nm : m <> n).
+      { intros E. subst m. rewrite Ee in Fm. inversion Fm; subst. congruence. }
+      split; [apply (in_remove_nat n _ m NDu); tauto|].
+      exists v'. rewrite (Eo m Nm). exact Fm.
+  Qed.
+
+  (* ---------------- do_insert ---------------- *)
+  Lemma fl_do_insert_refines : forall t (l : fifol K V) (s : lc K V) k v,
+    lc_inv t s -> fl_rep l s -> assoc k (fl_index l) = None ->
+    exists l', fl_do_insert l k v = Ok l' /\
+               fl_rep l' (lc_with s (lc_evict fifo_policy s ++ [(k, v)])).
+  Proof.
+    intros t l s k v I (free & used & R) A.
+    destruct I as (Ind & Ilen & Icap).
+    destruct R as (Rl & Rc & Rcl & Rnd & Rll & Rb & Ru & Ril & Rik & Rf & Rm & Rfw & Rbw).
+    pose proof (map_some_length _ _ _ Rm) as Lm.
+    assert (Nk : ~ In k (keys (fl_index l))) by (apply assoc_none; exact A).
+    destruct free as [|n fr].
+    - (* the cache is full: the head is the oldest used node *)
+      simpl in Rl.
+      destruct used as [|n0 us].
+      { rewrite Rl in Rll. simpl in Rll. lia. }
+      destruct (lc_items s) as [|[k0 v0] its] eqn:Eit; [discriminate|].
+      simpl in Rm. injection Rm as Rm1 Rm2.
+      assert (Il : In n0 (fl_list l)) by (rewrite Rl; left; reflexivity).
+      assert (Hn : n0 < List.length (fl_cells l)) by (rewrite Rcl; apply Rb; exact Il).
+      assert (A0 : assoc k0 (fl_index l) = Some n0) by (apply (Rfw n0 k0 v0); [left; reflexivity|exact Rm1]).
+      assert (Ec : nth_error (fl_cells l) n0 = Some {| fc_keyed := Some k0; fc_val := Some v0 |})
+        by (apply centry_some; exact Rm1).
+      assert (Nk0 : k <> k0) by (intros E; subst k0; congruence).
+      rewrite Rl in Rnd. inversion Rnd as [|y t0 NI NDus]; subst y t0.
+      pose proof (length_remk_nodup _ _ _ Rik A0) as Lr.
+      unfold fl_do_insert. rewrite Rl. rewrite splice_begin_to_end. cbn [bind].
+      rewrite prev_end_snoc. cbn [bind].
+      rewrite (cell_of_ok_rec _ _ _ _ _ n0 _) with (2 := Ec)
+        by (apply in_or_app; right; left; reflexivity).
+      cbn [bind fc_keyed]. unfold index_erase. rewrite A0. cbn [bind].
+      unfold index_emplace.
+      assert (C : (List.length (remk k0 (fl_index l)) <? fl_cap l) = true).
+      { apply Nat.ltb_lt. rewrite Rl in Rll. simpl in Rll, Ril. lia. }
+      rewrite C. cbn [bind]. rewrite vset_ok by exact Hn. cbn [bind].
+      eexists. split; [reflexivity|]. exists [], (us ++ [n0]).
+      unfold repw. cbn [fl_list fl_cap fl_cells fl_index fl_used lc_with lc_cap lc_items].
+      rewrite upd_length.
+      assert (Eo : forall m, m <> n0 ->
+                fl_entry {| fl_cap := fl_cap l; fl_list := us ++ [n0];
+                            fl_cells := upd_nth n0 {| fc_keyed := Some k; fc_val := Some v |} (fl_cells l);
+                            fl_index := remk k0 (fl_index l) ++ [(k, n0)]; fl_used := fl_used l |} m = fl_entry l m).
+      { intros m Nm. rewrite !fl_entry_centry. cbn [fl_cells]. apply centry_upd_neq. exact Nm. }
+      assert (En : fl_entry {| fl_cap := fl_cap l; fl_list := us ++ [n0];
+                            fl_cells := upd_nth n0 {| fc_keyed := Some k; fc_val := Some v |} (fl_cells l);
+                            fl_index := remk k0 (fl_index l) ++ [(k, n0)]; fl_used := fl_used l |} n0 = Some (k, v)).
+      { rewrite fl_entry_centry. cbn [fl_cells]. apply centry_upd_eq. exact Hn. }
+      assert (Ev : lc_evict fifo_policy s = its).
+      { unfold lc_evict. rewrite Eit. simpl lc_victim_back. cbv iota.
+        assert (C2 : (lc_cap s <=? List.length ((k0, v0) :: its)) = true).
+        { apply Nat.leb_le. rewrite Rl in Rll. simpl in *. lia. }
+        rewrite C2. reflexivity. }
+      rewrite Ev.
+      split; [reflexivity|]. split; [exact Rc|]. split; [exact Rcl|].
+      split; [apply nodup_rotate; constructor; assumption|].
+      split. { rewrite Rl in Rll. rewrite app_length. simpl in *. lia. }
+      split.
+      { intros m J. apply Rb. rewrite Rl. apply in_app_or in J. destruct J as [J|[J|[]]]; [right; exact J|left; exact J]. }
+      split. { rewrite Ru, app_length. simpl. lia. }
+      split. { rewrite !app_length. simpl in *. lia. }
+      split.
+      { rewrite keys_app. simpl. apply nodup_snoc; [apply nodup_remk; exact Rik|].
+        intros J. apply in_keys_remk in J. tauto. }
+      split; [intros m []|].
+      split.
+      { rewrite !map_app. simpl. rewrite En. f_equal.
+        rewrite <- Rm2. apply map_ext_in. intros m Im. apply Eo. intros E. subst m. contradiction. }
+      split.
+      + intros m k' v' Im Fm. apply in_app_or in Im. destruct Im as [Im|[Im|[]]].
+        * assert (Nm : m <> n0) by (intros E; subst m; contradiction).
+          rewrite (Eo m Nm) in Fm. pose proof (Rfw m k' v' (or_intror Im) Fm) as A'.
+          assert (Nk' : k' <> k0) by (intros E; subst k'; congruence).
+          rewrite assoc_app, assoc_remk_other by exact Nk'. rewrite A'. reflexivity.
+        * subst m. rewrite En in Fm. inversion Fm; subst k' v'.
+          rewrite assoc_app, assoc_remk_other by exact Nk0. rewrite A. simpl. rewrite keqb_refl. reflexivity.
+      + intros k' m A'. rewrite assoc_app in A'.
+        destruct (assoc k' (remk k0 (fl_index l))) as [m0|] eqn:A1.
+        * inversion A'; subst m0.
+          assert (Nk' : k' <> k0).
+          { intros E. subst k'. rewrite assoc_remk_same in A1. discriminate. }
+          rewrite assoc_remk_other in A1 by exact Nk'.
+          destruct (Rbw k' m A1) as (Im & v' & Fm).
+          assert (Nm : m <> n0).
+          { intros E. subst m. rewrite Rm1 in Fm. inversion Fm; subst. congruence. }
+          destruct Im as [E|Im]; [congruence|].
+          split; [apply in_or_app; left; exact Im|]. exists v'. rewrite (Eo m Nm). exact Fm.
+        * simpl in A'. destruct (Base.eqb_spec k' k) as [E|N]; [|discriminate].
+          inversion A'; subst. split; [apply in_or_app; right; left; reflexivity|].
+          exists v. exact En.
+    - (* there is a free node at the head *)
+      simpl in Rl.
+      assert (Il : In n (fl_list l)) by (rewrite Rl; left; reflexivity).
+      assert (Hn : n < List.length (fl_cells l)) by (rewrite Rcl; apply Rb; exact Il).
+      destruct (Rf n (or_introl eq_refl)) as (c & Ec & Ekc).
+      rewrite Rl in Rnd. inversion Rnd as [|y t0 NI NDr]; subst y t0.
+      assert (Nu : ~ In n used) by (intros J; apply NI; apply in_or_app; right; exact J).
+      assert (Nfr : ~ In n fr) by (intros J; apply NI; apply in_or_app; left; exact J).
+      unfold fl_do_insert. rewrite Rl. rewrite splice_begin_to_end. cbn [bind].
+      rewrite prev_end_snoc. cbn [bind].
+      rewrite (cell_of_ok_rec _ _ _ _ _ n _) with (2 := Ec)
+        by (apply in_or_app; right; left; reflexivity).
+      cbn [bind]. rewrite Ekc. cbn [bind].
+      unfold index_emplace.
+      assert (C : (List.length (fl_index l) <? fl_cap l) = true).
+      { apply Nat.ltb_lt. rewrite Rl in Rll. simpl in Rll. rewrite app_length in Rll. lia. }
+      rewrite C. cbn [bind]. rewrite vset_ok by exact Hn. cbn [bind].
+      eexists. split; [reflexivity|]. exists fr, (used ++ [n]).
+      unfold repw. cbn [fl_list fl_cap fl_cells fl_index fl_used lc_with lc_cap lc_items].
+      rewrite upd_length.
+      assert (Eo : forall m, m <> n ->
+                fl_entry {| fl_cap := fl_cap l; fl_list := (fr ++ used) ++ [n];
+                            fl_cells := upd_nth n {| fc_keyed := Some k; fc_val := Some v |} (fl_cells l);
+                            fl_index := fl_index l ++ [(k, n)]; fl_used := S (fl_used l) |} m = fl_entry l m).
+      { intros m Nm. rewrite !fl_entry_centry. cbn [fl_cells]. apply centry_upd_neq. exact Nm. }
+      assert (En : fl_entry {| fl_cap := fl_cap l; fl_list := (fr ++ used) ++ [n];
+                            fl_cells := upd_nth n {| fc_keyed := Some k; fc_val := Some v |} (fl_cells l);
+                            fl_index := fl_index l ++ [(k, n)]; fl_used := S (fl_used l) |} n = Some (k, v)).
+      { rewrite fl_entry_centry. cbn [fl_cells]. apply centry_upd_eq. exact Hn. }
+      assert (Ev : lc_evict fifo_policy s = lc_items s).
+      { unfold lc_evict.
+        assert (C2 : (lc_cap s <=? List.length (lc_items s)) = false).
+        { apply Nat.leb_gt. rewrite Rl in Rll. simpl in Rll. rewrite app_length in Rll. lia. }
+        rewrite C2. reflexivity. }
+      rewrite Ev.
+      split; [rewrite app_assoc; reflexivity|]. split; [exact Rc|]. split; [exact Rcl|].
+      split; [apply nodup_rotate; constructor; assumption|].
+      split. { rewrite Rl in Rll. rewrite app_length. simpl in *. lia. }
+      split.
+      { intros m J. apply Rb. rewrite Rl. apply in_app_or in J. destruct J as [J|[J|[]]]; [right; exact J|left; exact J]. }
+      split. { rewrite Ru, app_length. simpl. lia. }
+      split. { rewrite !app_length. simpl. lia. }
+      split. { rewrite keys_app. simpl. apply nodup_snoc; [exact Rik|exact Nk]. }
+      split.
+      { intros m Im. destruct (Rf m (or_intror Im)) as (c' & Em & Ek'). exists c'. split; [|exact Ek'].
+        rewrite nth_error_upd_neq; [exact Em|]. intros E. subst m. contradiction. }
+      split.
+      { rewrite !map_app. simpl. rewrite En. f_equal.
+        rewrite <- Rm. apply map_ext_in. intros m Im. apply Eo. intros E. subst m. contradiction. }
+      split.
+      + intros m k' v' Im Fm. apply in_app_or in Im. destruct Im as [Im|[Im|[]]].
+        * assert (Nm : m <> n) by (intros E; subst m; contradiction).
+          rewrite (Eo m Nm) in Fm. pose proof (Rfw m k' v' Im Fm) as A'.
+          rewrite assoc_app, A'. reflexivity.
+        * subst m. rewrite En in Fm. inversion Fm; subst k' v'.
+          rewrite assoc_app, A. simpl. rewrite keqb_refl. reflexivity.
+      + intros k' m A'. rewrite assoc_app in A'.
+        destruct (assoc k' (fl_index l)) as [m0|] eqn:A1.
+        * inversion A'; subst m0.
+          destruct (Rbw k' m A1) as (Im & v' & Fm).
+          assert (Nm : m <> n) by (intros E; subst m; contradiction).
+          split; [apply in_or_app; left; exact Im|]. exists v'. rewrite (Eo m Nm). exact Fm.
+        * simpl in A'. destruct (Base.eqb_spec k' k) as [E|N]; [|discriminate].
+          inversion A'; subst. split; [apply in_or_app; right; left; reflexivity|].
+          exists v. exact En.
+  Qed.
+
+  Lemma lc_inv_any : forall t t' (s : lc K V), lc_inv t s -> lc_inv t' s.
+  Proof. intros t t' s I. exact I. Qed.
+
+  Lemma fl_rep_lookup_none : forall (l : fifol K V) (s : lc K V) k,
+    fl_rep l s -> assoc k (fl_index l) = None -> assoc k (lc_items s) = None.
+  Proof. intros l s k (free & used & R) A. eapply repw_none; eauto. Qed.
+
+  Lemma fl_rep_lookup_some : forall t (l : fifol K V) (s : lc K V) k n,
+    lc_inv t s -> fl_rep l s -> assoc k (fl_index l) = Some n -> exists v, assoc k (lc_items s) = Some v.
+  Proof.
+    intros t l s k n I (free & used & R) A.
+    destruct (repw_some t l s free used k n I R A) as (_ & v & _ & _ & Ea). eauto.
+  Qed.
+
+  (* ---------------- do_insert_update ---------------- *)
+  Lemma fl_ins_refines : forall t t' (l : fifol K V) (s : lc K V) k v a s1 b,
+    lc_inv t s -> fl_rep l s -> lc_ins fifo_policy s k v a = (s1, b) ->
+    exists l', fl_ins l k v a = Ok (l', b) /\ fl_rep l' s1 /\ lc_inv t' s1.
+  Proof.
+    intros t t' l s k v a s1 b I R E. unfold lc_ins in E. unfold fl_ins.
+    destruct (assoc k (fl_index l)) as [n|] eqn:A.
+    - destruct (fl_rep_lookup_some t l s k n I R A) as (v0 & Ea). rewrite Ea in E.
+      destruct (a_upd a).
+      + simpl in E. injection E as E1 E2. subst s1 b.
+        destruct (fl_update_refines t l s k n v I R A) as (l' & D & R').
+        rewrite D. cbn [bind]. exists l'. split; [reflexivity|]. split; [exact R'|].
+        apply inv_set with t. exact I.
+      + injection E as E1 E2. subst s1 b. exists l. auto.
+    - rewrite (fl_rep_lookup_none l s k R A) in E.
+      destruct (a_ins a).
+      + injection E as E1 E2. subst s1 b.
+        destruct (fl_do_insert_refines t l s k v I R A) as (l' & D & R').
+        rewrite D. cbn [bind]. exists l'. split; [reflexivity|]. split; [exact R'|].
+        apply inv_new with t; [exact I|]. exact (fl_rep_lookup_none l s k R A).
+      + injection E as E1 E2. subst s1 b. exists l. auto.
+  Qed.
+
+  (* ---------------- erase(key) ---------------- *)
+  Lemma fl_erase_refines : forall t t' (l : fifol K V) (s : lc K V) k s1 b,
+    lc_inv t s -> fl_rep l s -> lc_erase s k = (s1, b) ->
+    exists l', fl_erase l k = Ok (l', b) /\ fl_rep l' s1 /\ lc_inv t' s1.
+  Proof.
+    intros t t' l s k s1 b I R E. unfold lc_erase in E. unfold fl_erase.
+    destruct (assoc k (fl_index l)) as [n|] eqn:A.
+    - destruct (fl_rep_lookup_some t l s k n I R A) as (v0 & Ea). rewrite Ea in E.
+      injection E as E1 E2. subst s1 b.
+      destruct (fl_do_erase_refines t l s k n I R A) as (l' & D & R').
+      rewrite D. cbn [bind]. exists l'. split; [reflexivity|]. split; [exact R'|].
+      apply inv_rem with t. exact I.
+    - rewrite (fl_rep_lookup_none l s k R A) in E. injection E as E1 E2. subst s1 b.
+      exists l. auto.
+  Qed.
+
+  (* ---------------- range calls ---------------- *)
+  Lemma fl_ins_range_refines : forall xs t t' (l : fifol K V) (s : lc K V) a n,
+    lc_inv t s -> fl_rep l s ->
+    exists l', fl_ins_range l xs a n = Ok (l', snd (lc_ins_range fifo_policy s xs a n)) /\
+               fl_rep l' (fst (lc_ins_range fifo_policy s xs a n)) /\
+               lc_inv t' (fst (lc_ins_range fifo_policy s xs a n)).
+  Proof.
+    induction xs as [|[[z k] v] r IH]; intros t t' l s a n I R; simpl.
+    - exists l. auto.
+    - destruct (lc_ins fifo_policy s k v a) as [s1 b] eqn:E.
+      destruct (fl_ins_refines t t l s k v a s1 b I R E) as (l1 & D1 & R1 & I1).
+      rewrite D1. cbn [bind].
+      exact (IH t t' l1 s1 a (if b then S n else n) I1 R1).
+  Qed.
+
+  Lemma fl_erase_range_refines : forall ks t t' (l : fifol K V) (s : lc K V) n,
+    lc_inv t s -> fl_rep l s ->
+    exists l', fl_erase_range l ks n = Ok (l', snd (lc_erase_range s ks n)) /\
+               fl_rep l' (fst (lc_erase_range s ks n)) /\
+               lc_inv t' (fst (lc_erase_range s ks n)).
+  Proof.
+    induction ks as [|k r IH]; intros t t' l s n I R; simpl.
+    - exists l. auto.
+    - destruct (lc_erase s k) as [s1 b] eqn:E.
+      destruct (fl_erase_refines t t l s k s1 b I R E) as (l1 & D1 & R1 & I1).
+      rewrite D1. cbn [bind].
+      exact (IH t t' l1 s1 (if b then S n else n) I1 R1).
+  Qed.
+
+  Lemma fl_rep_sizes : forall (l : fifol K V) (s : lc K V), fl_rep l s ->
+    fl_used l = lc_size s /\ List.length (fl_list l) = lc_cap s /\ List.length (fl_cells l) = lc_cap s.
+  Proof.
+    intros l s (free & used & R).
+    destruct R as (Rl & Rc & Rcl & Rnd & Rll & Rb & Ru & Ril & Rik & Rf & Rm & Rfw & Rbw).
+    split; [|split; assumption]. unfold lc_size. rewrite Ru. eapply map_some_length; eauto.
+  Qed.
+
+  (* ---------------- one public call ---------------- *)
+  (* one public call: from related states (the mid-level one satisfying its invariant) the
+     literal machine does not hit UB, returns the same result as the mid-level model, and the
+     successor states are related again *)
   Theorem fl_step_refines : forall t (l : fifol K V) (s : lc K V) o now rnd,
       lc_inv t s -> fl_rep l s ->
       exists l', fl_step l o now rnd = Ok (l', snd (lc_step fifo_policy s o now rnd)) /\
                  fl_rep l' (fst (lc_step fifo_policy s o now rnd)) /\
                  lc_inv now (fst (lc_step fifo_policy s o now rnd)).
-  Admitted.
+  Proof.
+    intros t l s o now rnd I R.
+    destruct (fl_rep_sizes l s R) as (Su & Sl & _).
+    destruct o; simpl; try (exists l; rewrite ?Su, ?Sl; auto; fail).
+    - destruct (lc_ins fifo_policy s k v a) as [s1 b] eqn:E.
+      destruct (fl_ins_refines t now l s k v a s1 b I R E) as (l1 & D1 & R1 & I1).
+      rewrite D1. cbn [bind]. exists l1. auto.
+    - destruct (fl_ins_range_refines l0 t now l s a 0 I R) as (l1 & D1 & R1 & I1).
+      rewrite D1. cbn [bind].
+      destruct (lc_ins_range fifo_policy s l0 a 0) as [s1 n]. exists l1. auto.
+    - destruct (lc_erase s k) as [s1 b] eqn:E.
+      destruct (fl_erase_refines t now l s k s1 b I R E) as (l1 & D1 & R1 & I1).
+      rewrite D1. cbn [bind]. exists l1. auto.
+    - destruct (fl_erase_range_refines l0 t now l s 0 I R) as (l1 & D1 & R1 & I1).
+      rewrite D1. cbn [bind].
+      destruct (lc_erase_range s l0 0) as [s1 n]. exists l1. auto.
+    - rewrite (fl_find_refines t l s k I R), lc_find_fifo. cbn [bind]. exists l. auto.
+    - rewrite (fl_find_range_refines t l s l0 I R), lc_find_range_fifo. cbn [bind]. exists l. auto.
+    - rewrite (fl_find_range_refines t l s l0 I R), lc_find_range_fifo. cbn [bind]. exists l. auto.
+  Qed.
 
+  Lemma lc_step_cap : forall t (s : lc K V) o now rnd, lc_inv t s ->
+    lc_cap (fst (lc_step fifo_policy s o now rnd)) = lc_cap s.
+  Proof.
+    assert (Hi : forall (s : lc K V) k v a, lc_cap (fst (lc_ins fifo_policy s k v a)) = lc_cap s).
+    { intros s k v a. unfold lc_ins. destruct (assoc k (lc_items s)); [destruct (a_upd a)|destruct (a_ins a)]; reflexivity. }
+    assert (He : forall (s : lc K V) k, lc_cap (fst (lc_erase s k)) = lc_cap s).
+    { intros s k. unfold lc_erase. destruct (assoc k (lc_items s)); reflexivity. }
+    intros t s o now rnd _. destruct o; simpl; try reflexivity.
+    - specialize (Hi s k v a). destruct (lc_ins fifo_policy s k v a). exact Hi.
+    - assert (G : forall xs (s0 : lc K V) n, lc_cap (fst (lc_ins_range fifo_policy s0 xs a n)) = lc_cap s0).
+      { induction xs as [|[[z k] v] r IH]; intros s0 n; simpl; [reflexivity|].
+        specialize (Hi s0 k v a). destruct (lc_ins fifo_policy s0 k v a) as [s1 b]. rewrite IH. exact Hi. }
+      specialize (G l s 0). destruct (lc_ins_range fifo_policy s l a 0). exact G.
+    - specialize (He s k). destruct (lc_erase s k). exact He.
+    - assert (G : forall ks (s0 : lc K V) n, lc_cap (fst (lc_erase_range s0 ks n)) = lc_cap s0).
+      { induction ks as [|k r IH]; intros s0 n; simpl; [reflexivity|].
+        specialize (He s0 k). destruct (lc_erase s0 k) as [s1 b]. rewrite IH. exact He. }
+      specialize (G l s 0). destruct (lc_erase_range s l 0). exact G.
+    - rewrite lc_find_fifo. reflexivity.
+    - rewrite lc_find_range_fifo. reflexivity.
+    - rewrite lc_find_range_fifo. reflexivity.
+  Qed.
+
+  (* whole histories: the literal machine started on a fresh cache never reaches UB, and
+     returns the results of the mid-level model, call by call *)
   Fixpoint fl_run (l : fifol K V) (h : list (ev K V)) : res (fifol K V * list (ret K V)) :=
     match h with
     | [] => Ok (l, [])
@@ -24,15 +794,49 @@ Section FifoLitFacts.
                 do z <- fl_run l1 r; let '(l2, ys) := z in Ok (l2, y :: ys)
     end.
 
+  Lemma fl_run_refines : forall h t (l : fifol K V) (s : lc K V),
+      lc_inv t s -> fl_rep l s ->
+      exists l', fl_run l h = Ok (l', snd (run (lc_step fifo_policy) s h)) /\
+                 fl_rep l' (fst (run (lc_step fifo_policy) s h)) /\
+                 lc_cap (fst (run (lc_step fifo_policy) s h)) = lc_cap s.
+  Proof.
+    induction h as [|e r IH]; intros t l s I R; simpl.
+    - exists l. auto.
+    - destruct (fl_step_refines t l s (e_op e) (e_now e) (e_rnd e) I R) as (l1 & D1 & R1 & I1).
+      pose proof (lc_step_cap t s (e_op e) (e_now e) (e_rnd e) I) as C1.
+      rewrite D1. cbn [bind]. unfold step_ev.
+      destruct (lc_step fifo_policy s (e_op e) (e_now e) (e_rnd e)) as [s1 y1]. simpl in *.
+      destruct (IH (e_now e) l1 s1 I1 R1) as (l2 & D2 & R2 & C2).
+      rewrite D2. cbn [bind].
+      destruct (run (lc_step fifo_policy) s1 r) as [s2 ys]. simpl in *.
+      exists l2. split; [reflexivity|]. split; [exact R2|]. congruence.
+  Qed.
+
   Theorem fl_no_UB_on_any_history : forall cap h,
       1 <= cap ->
       exists l', fl_run (fifol_init cap) h = Ok (l', snd (run (lc_step fifo_policy) (lc_init cap) h)) /\
                  fl_rep l' (fst (run (lc_step fifo_policy) (lc_init cap) h)).
-  Admitted.
+  Proof.
+    intros cap h Hc.
+    destruct (fl_run_refines h 0%Z (fifol_init cap) (lc_init cap)
+                (lc_inv_init cap 0%Z Hc) (fl_rep_init cap Hc)) as (l' & D & R & _).
+    exists l'. auto.
+  Qed.
 
   (* the number of value cells (list nodes) never changes *)
   Theorem fl_value_cells_constant : forall cap h l' rs,
       1 <= cap -> fl_run (fifol_init cap) h = Ok (l', rs) ->
       List.length (fl_cells l') = cap /\ List.length (fl_list l') = cap.
-  Admitted.
+  Proof.
+    intros cap h l' rs Hc E.
+    destruct (fl_run_refines h 0%Z (fifol_init cap) (lc_init cap)
+                (lc_inv_init cap 0%Z Hc) (fl_rep_init cap Hc)) as (l2 & D & R & C).
+    rewrite D in E. injection E as E1 E2. subst l2.
+    destruct (fl_rep_sizes _ _ R) as (_ & Sl & Sc). rewrite Sl, Sc, C. simpl. auto.
+  Qed.
 End FifoLitFacts.
+
+Print Assumptions fl_rep_init.
+Print Assumptions fl_step_refines.
+Print Assumptions fl_no_UB_on_any_history.
+Print Assumptions fl_value_cells_constant.
